@@ -45,6 +45,15 @@ def gen_cases(tier, seed):
                 cases.append({"kind": "structure", "mode": mode, "crystal": {"name": cell, "order": "asis" if cell == "tric_ilv" else ["asis", "interleave", "random", "grouped"][(ci + r) % 4], "order_seed": int(rng.integers(1000)),
                                                                              "int_shift": bool((ci + r) % 2), "rot_seed": int(rng.integers(100)) if mode in ("vasp", "qe", "aims", "abinit", "castep", "elk") and r % 2 else None},
                               "displaced": bool(ci % 3 == 0), "seed": int(rng.integers(10 ** 6))})
+    # the route `phonopy -d` takes: write_supercells_with_displacements (per-atom / per-species data replicated for the supercell) for supercell
+    # matrices of every shape: diagonal, triangular, non-triangular, negative entries
+    smats = [np.diag([2, 1, 1]).tolist(), [[2, 1, 0], [0, 2, 0], [0, 0, 1]], [[2, 1, 0], [1, 2, 0], [0, 0, 1]], [[0, 1, 1], [1, 0, 1], [1, 1, 0]], [[-1, 1, 1], [1, -1, 1], [1, 1, -1]],
+             [[1, 1, 0], [-1, 1, 0], [0, 0, 2]], [[0, 2, 0], [1, 0, 1], [1, 0, -1]], np.diag([1, 2, 2]).tolist()]
+    for mode in MODES:
+        for r in range(2 if tier == "quick" else 8):
+            cases.append({"kind": "dispatch", "mode": mode, "crystal": {"name": ["tric_ilv", "rocksalt", "tric3", "wurtzite", "perovskite"][int(rng.integers(5))],
+                                                                           "order": ["asis", "interleave", "random"][int(rng.integers(3))], "order_seed": int(rng.integers(1000))},
+                          "smat": smats[int(rng.integers(len(smats)))], "seed": int(rng.integers(10 ** 6)), "_cost": 3})
     cases.append({"kind": "units"})
     for i, cell in enumerate(["rocksalt", "zincblende", "tric2", "wurtzite"] if tier == "quick" else ["rocksalt", "zincblende", "tric2", "wurtzite", "cscl", "rutile", "perovskite", "tric3"]):
         cases.append({"kind": "endtoend", "crystal": {"name": cell}, "seed": int(rng.integers(10 ** 6)), "_cost": 10})
@@ -165,6 +174,73 @@ def write_read(mode, cell, workdir, name="struct"):
         os.chdir(cwd)
 
 
+def dispatcher_info(mode, symbols):
+    """optional_structure_info as read_crystal_structure returns it for the unit cell (what `phonopy -d` hands to write_supercells_with_displacements)."""
+    from phonopy.structure.atoms import symbol_map
+
+    uniq = list(dict.fromkeys(symbols))
+    n = len(symbols)
+    if mode == "qe":
+        return ("pw.in", {s: s + ".UPF" for s in uniq})
+    if mode == "wien2k":
+        # per-atom radial-mesh data, made distinguishable per species so that a wrong replication shows
+        return ("case.struct", [781 + 2 * uniq.index(s) for s in symbols], [1e-4 * (1 + uniq.index(s)) for s in symbols], [2.0 + 0.1 * uniq.index(s) for s in symbols])
+    if mode == "elk":
+        return ("elk.in", [s + ".in" for s in uniq])
+    if mode == "siesta":
+        return ("x.fdf", {s: i + 1 for i, s in enumerate(uniq)})
+    if mode == "crystal":
+        return ("crystal.o", [symbol_map[s] for s in symbols])
+    if mode == "fleur":
+        return ("fleur_inpgen", [str(symbol_map[s]) for s in symbols], ["title line"])
+    if mode == "abacus":
+        return ("STRU", {s: s + ".upf" for s in uniq}, {s: s + ".orb" for s in uniq}, None)
+    return ("unitcell",)
+
+
+def adapt_and_read(mode, path, symbols):
+    """Read a structure file that the interface wrote, after the minimal completion an input needs to be readable by the same interface."""
+    from phonopy.interface.calculator import read_crystal_structure
+
+    cwd = os.getcwd()
+    try:
+        if mode == "crystal":
+            return parse_crystal_ext(path)
+        target = path
+        if mode == "qe":
+            uniq = list(dict.fromkeys(symbols))
+            txt = open(path).read()
+            if "&system" not in txt.lower():
+                open(path, "w").write("&system\n  ibrav = 0, nat = %d, ntyp = %d\n/\n" % (len(symbols), len(uniq)) + txt)
+        elif mode == "siesta":
+            from phonopy.structure.atoms import symbol_map
+
+            uniq = list(dict.fromkeys(symbols))
+            body = open(path).read()
+            if "ChemicalSpeciesLabel" not in body:
+                hdr = "NumberOfSpecies %d\n%%block ChemicalSpeciesLabel\n" % len(uniq) + "".join(" %d %d %s\n" % (i + 1, symbol_map[s], s) for i, s in enumerate(uniq)) + "%endblock ChemicalSpeciesLabel\n"
+                open(path, "w").write(hdr + body)
+        elif mode == "turbomole":
+            os.chdir(path)
+            target = "control"
+        elif mode == "fleur":
+            lines = open(path).read().split("\n")
+            if "! a1" not in lines[1]:
+                lines[1] = lines[1] + " ! a1"
+                for i, ln in enumerate(lines[4:], 4):
+                    if ln.strip().isdigit():
+                        lines[i] = ln + " ! num atoms"
+                        break
+                open(path, "w").write("\n".join(lines))
+        try:
+            rc, _ = read_crystal_structure(target, interface_mode=mode)
+        except SystemExit as e:
+            raise RuntimeError("reader called sys.exit(%s)" % (e.code,))
+        return rc
+    finally:
+        os.chdir(cwd)
+
+
 def compare_cells(orig, got, dec, mode):
     """Return list of (kind, msg). Order rule: preserved, or stable grouping by first appearance of species."""
     probs = []
@@ -281,6 +357,70 @@ def run_case(c):
             obs["iface_" + mode] = 1
             return {"viol": viol, "nontrivial": bool(len(cell) >= 2), "key": key, "obs": obs, "evals": len(targets),
                     "sample": {"kind": "structure", "interface": mode, "crystal": c["crystal"], "symbols": sa[:8], "interleaved": interleaved, "targets": [t[0] for t in targets]}}
+
+        if c["kind"] == "dispatch":
+            from phonopy import Phonopy
+            from phonopy.interface.calculator import write_supercells_with_displacements
+
+            mode = c["mode"]
+            cd = crystals.make(**c["crystal"])
+            cell = crystals.to_atoms(cd)
+            if c["crystal"]["name"] == "tric_ilv" and c["crystal"]["order"] != "asis":
+                cd = crystals.make(**dict(c["crystal"], order="asis"))
+                cell = crystals.to_atoms(cd)
+            smat = np.array(c["smat"])
+            if len(cell) * abs(int(round(np.linalg.det(smat)))) > 60:
+                smat = np.diag([2, 1, 1])
+            ph = Phonopy(cell, supercell_matrix=smat, log_level=0)
+            ph.generate_displacements(distance=0.03)
+            disp = list(ph.supercells_with_displacements[:3])
+            want = [("supercell", ph.supercell)] + [("displaced %d" % (i + 1), d) for i, d in enumerate(disp)]
+            tri = bool(np.allclose(smat, np.triu(smat)) or np.allclose(smat, np.tril(smat)))
+            feat = dict(interface=mode, smat=smat.tolist(), smat_triangular=tri, det=abs(int(round(np.linalg.det(smat)))), diag_product=int(np.prod(np.diagonal(smat))), natom=len(ph.supercell))
+            cwd = os.getcwd()
+            os.chdir(tmp)
+            try:
+                try:
+                    write_supercells_with_displacements(mode, ph.supercell, disp, dispatcher_info(mode, list(cell.symbols)), additional_info={"supercell_matrix": smat})
+                except Exception as e:
+                    bad("dispatch_exception", "%s: write_supercells_with_displacements raised %s: %s" % (mode, type(e).__name__, str(e)[:200]), **feat)
+                    return {"viol": viol, "nontrivial": False, "obs": obs}
+                entries = sorted(os.listdir("."))
+            finally:
+                os.chdir(cwd)
+            skip_re = re.compile(r"(MAGMOM|TEMPLATE|\.d12$|\.yaml$)")
+            got_cells = []
+            for e_ in entries:
+                p_ = os.path.join(tmp, e_)
+                if skip_re.search(e_) or (os.path.isdir(p_) and mode != "turbomole") or (mode == "crystal" and not e_.endswith(".ext")):
+                    continue
+                txt = "".join(open(os.path.join(r_, f_)).read() for r_, _, fs_ in os.walk(p_) for f_ in fs_) if os.path.isdir(p_) else open(p_).read()
+                try:
+                    rc_ = adapt_and_read(mode, p_, list(ph.supercell.symbols))
+                except Exception as e:
+                    bad("dispatch_unreadable", "%s: file %s written by write_supercells_with_displacements cannot be read back: %s: %s" % (mode, e_, type(e).__name__, str(e)[:160]), file=e_, **feat)
+                    continue
+                got_cells.append((e_, rc_, decimals_of(txt)))
+            obs["dispatch_files"] = obs.get("dispatch_files", 0) + len(got_cells)
+            if len(got_cells) != len(want):
+                bad("dispatch_file_count", "%s: %d structure files written for the supercell and %d displacements: %s" % (mode, len(got_cells), len(disp), entries), **feat)
+            # every expected cell must be described by exactly one file (file naming differs between interfaces: match by content)
+            for label, wc in want:
+                best = None
+                for e_, rc_, dec_ in got_cells:
+                    pr_ = compare_cells(wc, rc_, dec_, mode)
+                    if best is None or len(pr_) < len(best[1]):
+                        best = (e_, pr_)
+                    if not pr_:
+                        break
+                if best is None:
+                    continue
+                if best[1]:
+                    bad("dispatch_" + best[1][0][0], "%s, supercell matrix %s: no written file describes the %s; closest %s: %s" % (mode, smat.tolist(), label, best[0], best[1][0][1][:300]), what=label, **feat)
+            obs["dispatch_" + mode] = 1
+            obs["dispatch_nontriangular"] = obs.get("dispatch_nontriangular", 0) + int(not tri)
+            return {"viol": viol, "nontrivial": bool(len(cell) >= 2), "key": "dp|%s|%s|%s|%s" % (mode, c["crystal"]["name"], c["crystal"]["order"], smat.tolist()), "obs": obs, "evals": len(got_cells),
+                    "sample": {"kind": "dispatch", "interface": mode, "crystal": c["crystal"], "smat": smat.tolist(), "files": entries[:6]}}
 
         if c["kind"] == "units":
             from phonopy import units as U
